@@ -113,7 +113,7 @@ MUTANTS = [
     m("C11-uses-hash", "C11", "C11.R1", RV, "score = self.hash_function(f\"{node}-{key}\")", "score = self.hash_function(f\"{node}-{key}\") ^ hash(node)"),
     # ---------------- C12
     m("C12-route-prefixed", "C12", "C12.R2", H, "        check_key_helper(server_key, self.allow_unicode_keys, self.key_prefix)\n", "        server_key = check_key_helper(server_key, self.allow_unicode_keys, self.key_prefix)\n"),
-    m("C12-batch-by-id", "C12", "C12.R3", H, "client_batches[client.server].append(key)", "client_batches[id(client)].append(key)"),
+    m("C12-batch-by-id", "C12", "C12.R4", H, "client_batches[client.server].append(key)", "client_batches[id(client)].append(key)"),
     m("C12-no-update", "C12", "C12.R4", H, "            end.update(result)\n", "            pass\n"),
     m("C12-forward-tuple", "C12", "C12.R2", H, "            server_key, key = key\n", "            server_key, _ = key\n"),
     m("C12-rebind-batch", "C12", "C12.R3", H, "client_batches[client.server][key] = value", "client_batches[client.server] = {key: value}"),
